@@ -586,8 +586,6 @@ def parse_result(line, model):
             return {'cid': h[1], 'outcome': 'overread'}
         if len(h) == 4 and h[2] == 'crash':
             return {'cid': h[1], 'outcome': 'overread' if h[3] == 'asan-heap-buffer-overflow-read' else 'crash:' + h[3]}
-        if len(h) == 3 and h[2] == 'toodeep':
-            return {'cid': h[1], 'outcome': 'toodeep'}
         return {'raw': line}
     if len(head) != 5 or len(h) != 4:
         return {'raw': line}
@@ -619,9 +617,6 @@ def same_result(pi, pm):
         return pi == pm
     if pi['outcome'] == 'overread' or pm['outcome'] == 'overread':
         return pi['outcome'] == pm['outcome'] and pi['cid'] == pm['cid']
-    if pm['outcome'] == 'toodeep':
-        # the model stops following option files at depth 8; the implementation recurses without bound
-        return pi['outcome'] in ('crash:stack-overflow', 'crash:signal-11') and pi['cid'] == pm['cid']
     for k in ('cid', 'outcome', 'ret', 'errs', 'vals', 'prints'):
         if pi.get(k) != pm.get(k):
             return False
@@ -837,7 +832,7 @@ COUNTEREXAMPLE_OPS = [
     'C cx1 cx 1 0 0 %s x %s=%s N' % (x(SOLVER), x(SOLVER + b'_options'), x(b"x='")),
     # the same text given on the command line is harmless (quotes are not interpreted there)
     'C cx2 cx 1 0 0 %s x - A,%s' % (x(SOLVER), x(b"x='")),
-    # an option file that names itself: unbounded recursion ParseOptionString -> UseOptionFile -> ... (stack overflow)
+    # regression (fixed in ampl/mp 5ace2c7): an option file that names itself must end with an error, not a stack overflow
     'S cxs 3 ' + x(b'cxsolv'),
     'F ' + x(b'self.opt') + ' ' + x(b'wantsol=1\noptionfile=self.opt\n'),
     'C cx4 cxs 1 0 0 %s x %s=%s N' % (x(b'cxsolv'), x(b'cxsolv_options'), x(b'optionfile=self.opt')),
@@ -993,6 +988,8 @@ def run(ck):
             overreads.append((op, m))
         elif oc.startswith('crash') or 'raw' in pi:
             crashes.append((op, il[k], m))
+        if cid == 'cx4' and not (pi.get('outcome') == 'error' and any(e.startswith('n') for e in pi.get('errs', []))) and not oc.startswith('crash'):
+            oracle_bad.setdefault('optionfile:self-inclusion:not-reported', []).append((op, 'a self-including option file must end with the nesting error, got %s' % il[k][:200], 'cxs'))
         if m[0] == 'wf':
             for sig, msg in oracle_wellformed(pi, tables[m[1]][1], m[2]):
                 oracle_bad.setdefault(sig, []).append((op, msg, m[1]))
